@@ -4,6 +4,7 @@ go 1.23
 
 require (
 	github.com/gontainer/gontainer v0.0.0
+	github.com/gontainer/gontainer-helpers/v3 v3.0.0-20231102220126-cd3ac9fbe738
 	github.com/spf13/cobra v1.8.0
 	gopkg.in/yaml.v3 v3.0.1
 	pgregory.net/rapid v1.3.0
@@ -11,7 +12,6 @@ require (
 
 require (
 	github.com/fatih/color v1.16.0 // indirect
-	github.com/gontainer/gontainer-helpers/v3 v3.0.0-20231102220126-cd3ac9fbe738 // indirect
 	github.com/mattn/go-colorable v0.1.13 // indirect
 	github.com/mattn/go-isatty v0.0.20 // indirect
 	github.com/spf13/pflag v1.0.5 // indirect
